@@ -14,6 +14,20 @@ def own_facet(plan, rec):
     return f in plan.get("own", plan["facets"].split(","))
 
 
+COMPARED_KEY = {"res.lexer": "res.status", "res.autostyle": "res.status", "res.solo": "res.unequal", "res.decor": "res.err",
+                "res.setprop": "res.err", "out.all": "res.all"}
+
+
+def compared_key(facet):
+    """The validator's comparison counter (TabularTrace!Compared: one per logged observation or result field)
+    that a mismatch facet is computed from."""
+    if facet in COMPARED_KEY:
+        return COMPARED_KEY[facet]
+    if facet.startswith("out."):
+        return "res.status"          # every render logs its status and output
+    return facet
+
+
 def _diffkeys(a, b):
     if isinstance(a, dict) and isinstance(b, dict):
         return sorted(k for k in set(a) | set(b) if a.get(k) != b.get(k))
@@ -442,9 +456,9 @@ PLANS["C17"] = {
     "random": [{"gen": gens.gen_failclosed, "run_opts": {"every": True}}],
     "min_scenarios": {"quick": 300, "thorough": 3000},
     "assumptions": [
-        "the order of registry operations is taken from the verif-build hook inside the critical section (sequence number written under the registry's own lock)",
-        "data races are detected by Go's race detector on the very executions that are trace-validated",
-        "the mutual-exclusion probe uses a 40 ms timer only in the direction 'may miss': on correct code the second operation blocks until released",
+        "nothing inside the library is instrumented: the real-time order of registry operations comes from one atomic clock of the driver read immediately before each call and immediately after its return",
+        "data races are detected by Go's race detector (and the runtime's concurrent-map abort) on the very executions that are trace-validated; a report counts only with a frame inside the library",
+        "under overlapping calls exactly what the statement promises is demanded (a regular register per name; listings bounded by what was registered before the call and what was being registered before the return), sequential histories exactly",
     ],
 }
 
@@ -463,6 +477,7 @@ PLANS["C19"] = {
     "require_ops": ['autonew', 'liststyles', 'regdecor'],
     "facets": "none",
     "own": ["res.auto", "res.styles"],
+    "phases": [phases.styles_phase],
     "mc": [{"module": "MCAuto",
             "quick": dict(RegNames=Raw('{"mine", "a.b", "CSV", "texttable", "csv-friendly", "dashed"}'), MaxReg=2),
             "thorough": dict(RegNames=Raw('{"mine", "Mine", "a.b", "csv", "CSV", "texttable", "a.b.c", "csv-friendly", "html5", "dashed", "texttable-x"}'), MaxReg=2)}],
